@@ -82,7 +82,7 @@ pub fn decode_oracle(v: &[u8], st: &mut Stats) {
     if v.windows(2).any(|w| w == b"^^") { return; }
     let Some(want) = ref_decode(v) else { return };
     if want.contains('\u{fffd}') { return; }
-    let Some(got) = guard(|| to_lossy_string(v).to_string()) else { return };
+    let Some(got) = watched("to_lossy_string", || format!("bytes:{}=", hex(v)), || guard(|| to_lossy_string(v).to_string())) else { return };
     st.evaluations += 1;
     if got != want { st.fail_class(if has_trail5e_marker(v) { "c10-trail-byte-5e-before-letter" } else { "" }, format!("[C10] bytes {} decode to {:?}, the codepage rules give {:?}", hex(v), got, want), format!("bytes:{}={}", hex(v), cps(&want))); }
 }
@@ -105,11 +105,11 @@ fn dump_tables(dir: &str) {
 pub fn run_c12(a: &Args) {
     let check = |s: &str, st: &mut Stats| -> (String, String, String) {
         let id = cps(s);
-        let e = match guard(|| escaping::escape(s).to_string()) { Some(e) => e, None => { st.fail("[C12] escape panics".into(), id.clone()); String::new() } };
-        let u = match guard(|| escaping::unescape(&e).to_string()) { Some(u) => u, None => { st.fail("[C12] unescape panics".into(), id.clone()); String::new() } };
+        let e = match watched("escape", || id.clone(), || guard(|| escaping::escape(s).to_string())) { Some(e) => e, None => { st.fail("[C12] escape panics".into(), id.clone()); String::new() } };
+        let u = match watched("unescape", || id.clone(), || guard(|| escaping::unescape(&e).to_string())) { Some(u) => u, None => { st.fail("[C12] unescape panics".into(), id.clone()); String::new() } };
         if u != s { st.fail(format!("[C12] unescape(escape(s)) = {:?} for s = {:?}", u, s), id.clone()); }
         if e.chars().any(|c| "|*:\\/?\"<>#".contains(c)) { st.fail(format!("[C12] escaped output {:?} contains a reserved character", e), id.clone()); }
-        let t = match guard(|| colours::strip(s).to_string()) { Some(t) => t, None => { st.fail("[C12] strip panics".into(), id.clone()); String::new() } };
+        let t = match watched("strip", || id.clone(), || guard(|| colours::strip(s).to_string())) { Some(t) => t, None => { st.fail("[C12] strip panics".into(), id.clone()); String::new() } };
         let t2 = colours::strip(&t).to_string();
         if t2 != t { st.fail(format!("[C12] strip is not idempotent on {:?}: {:?} then {:?}", s, t, t2), id.clone()); }
         // token-level specification, computed independently
@@ -193,8 +193,8 @@ pub fn run_c10(a: &Args) {
 
     let oracle = |s: &str, st: &mut Stats| -> (Vec<u8>, String) {
         let id = cps(s);
-        let b = match guard(|| to_lossy_bytes(s).to_vec()) { Some(b) => b, None => { st.fail("[C10] to_lossy_bytes panics".into(), id.clone()); vec![] } };
-        let back = match guard(|| to_lossy_string(&b).to_string()) { Some(x) => x, None => { st.fail("[C10] to_lossy_string panics".into(), id.clone()); String::new() } };
+        let b = match watched("to_lossy_bytes", || id.clone(), || guard(|| to_lossy_bytes(s).to_vec())) { Some(b) => b, None => { st.fail("[C10] to_lossy_bytes panics".into(), id.clone()); vec![] } };
+        let back = match watched("to_lossy_string", || format!("bytes:{}=", hex(&b)), || guard(|| to_lossy_string(&b).to_string())) { Some(x) => x, None => { st.fail("[C10] to_lossy_string panics".into(), id.clone()); String::new() } };
         if s.is_ascii() && b != s.as_bytes() { st.fail(format!("[C10] pure ASCII {:?} is not passed through byte for byte", s), id.clone()); }
         let cs: Vec<char> = s.chars().collect();
         if !s.contains('^') {
@@ -304,7 +304,7 @@ pub fn run_c10(a: &Args) {
     for l in MARKERS.chars() { for b in 0..=255u8 { for tail in [vec![], vec![b'a'], vec![0x5e, b'L'], vec![0x40]] {
         let mut v = vec![b'x', b'^', l as u8, b]; v.extend(&tail); st.evaluations += 1;
         decode_oracle(&v, &mut st);
-        match guard(|| to_lossy_string(&v).to_string()) { None => st.fail("[C10] to_lossy_string panics".into(), format!("bytes {}", hex(&v))), Some(sv) => { if !sv.contains('\u{fffd}') && b != 0x5e && !(b >= 0x80 && tail.first() == Some(&0x5e)) { out.case(&format!("tostring {}", hex(&v)), &cps(&sv)); } } }
+        match watched("to_lossy_string", || format!("bytes:{}=", hex(&v)), || guard(|| to_lossy_string(&v).to_string())) { None => st.fail("[C10] to_lossy_string panics".into(), format!("bytes {}", hex(&v))), Some(sv) => { if !sv.contains('\u{fffd}') && b != 0x5e && !(b >= 0x80 && tail.first() == Some(&0x5e)) { out.case(&format!("tostring {}", hex(&v)), &cps(&sv)); } } }
     } } }
     st.exhaustive.push("every byte value after every marker letter (11 x 256 x 4 continuations)".into());
     // every string of up to 3 (thorough: 4) class bytes after every marker letter, as the END of the input: lead bytes of the double-byte
@@ -316,7 +316,7 @@ pub fn run_c10(a: &Args) {
             loop {
                 let mut v = vec![b'^', l as u8]; v.extend(idx.iter().map(|i| CLS[*i])); st.evaluations += 1;
                 decode_oracle(&v, &mut st);
-                if guard(|| to_lossy_string(&v).to_string()).is_none() { st.fail("[C10] to_lossy_string panics".into(), format!("bytes:{}=", hex(&v))); }
+                if watched("to_lossy_string", || format!("bytes:{}=", hex(&v)), || guard(|| to_lossy_string(&v).to_string())).is_none() { st.fail("[C10] to_lossy_string panics".into(), format!("bytes:{}=", hex(&v))); }
                 let mut kk = idx.len();
                 loop { if kk == 0 { idx = vec![0; idx.len() + 1]; break; } kk -= 1; if idx[kk] + 1 < CLS.len() { idx[kk] += 1; for j in kk + 1..idx.len() { idx[j] = 0; } break; } }
                 if idx.len() > maxl { break; }
@@ -324,7 +324,7 @@ pub fn run_c10(a: &Args) {
         }
         st.exhaustive.push(format!("every string of <= {maxl} class bytes (13 classes) after every marker letter, ending the input"));
     }
-    for _ in 0..(if a.thorough() { 500_000 } else { 30_000 }) { let len = rng.range(0, 24) as usize; let mut v = rng.bytes(len); for i in 0..v.len() { if rng.chance(1, 5) { v[i] = b'^'; } else if rng.chance(1, 6) { v[i] = *rng.pick(MARKERS.as_bytes()); } } st.evaluations += 1; if guard(|| to_lossy_string(&v).to_string()).is_none() { st.fail("[C10] to_lossy_string panics".into(), format!("bytes {}", hex(&v))); } decode_oracle(&v, &mut st); }
+    for _ in 0..(if a.thorough() { 500_000 } else { 30_000 }) { let len = rng.range(0, 24) as usize; let mut v = rng.bytes(len); for i in 0..v.len() { if rng.chance(1, 5) { v[i] = b'^'; } else if rng.chance(1, 6) { v[i] = *rng.pick(MARKERS.as_bytes()); } } st.evaluations += 1; if watched("to_lossy_string", || format!("bytes:{}=", hex(&v)), || guard(|| to_lossy_string(&v).to_string())).is_none() { st.fail("[C10] to_lossy_string panics".into(), format!("bytes {}", hex(&v))); } decode_oracle(&v, &mut st); }
     // runs of bytes that are no character in the codepage (0x80 / 0xFF, which are neither lead bytes nor carets), 1..255 of them, between valid
     // characters of that codepage: whatever stands for the malformed bytes, the characters around and after them are still interpreted in the
     // codepage - none is dropped, none moves (compared with the codepage decoder applied to the same run of bytes)
@@ -337,7 +337,7 @@ pub fn run_c10(a: &Args) {
             match after { 0 => { if let Some(w) = enc_one(lfs_encoding(*l), c2) { v.extend(w); } }, 1 => v.extend_from_slice(b"abc"), _ => { if let Some(w) = enc_one(lfs_encoding(*l), c2) { v.extend(&w); v.extend(&w); } v.extend_from_slice(b" ^Lz") } }
             st.evaluations += 1; st.bump("runs of malformed bytes between valid characters");
             let want = ref_decode_lossy(&v);
-            match guard(|| to_lossy_string(&v).to_string()) { None => st.fail("[C10] to_lossy_string panics".into(), format!("bytes:{}=", hex(&v))), Some(got) => if got != want { st.fail(format!("[C10] bytes {} ({n} malformed bytes after ^{l}) decode to {:?} but the codepage's decoder gives {:?}", hex(&v), got.chars().rev().take(12).collect::<String>().chars().rev().collect::<String>(), want.chars().rev().take(12).collect::<String>().chars().rev().collect::<String>()), format!("lossy {}", hex(&v))); } }
+            match watched("to_lossy_string", || format!("bytes:{}=", hex(&v)), || guard(|| to_lossy_string(&v).to_string())) { None => st.fail("[C10] to_lossy_string panics".into(), format!("bytes:{}=", hex(&v))), Some(got) => if got != want { st.fail(format!("[C10] bytes {} ({n} malformed bytes after ^{l}) decode to {:?} but the codepage's decoder gives {:?}", hex(&v), got.chars().rev().take(12).collect::<String>().chars().rev().collect::<String>(), want.chars().rev().take(12).collect::<String>().chars().rev().collect::<String>()), format!("lossy {}", hex(&v))); } }
         } } } }
     }
     // marker-rich valid sequences: two or three segments in different codepages, with ^8 and repeated / trailing markers
